@@ -2,7 +2,7 @@
 (printed by the Lean driver) whether a property is violated on a case.  They never look at the
 concrete machine M, so they stay valid when M and the code drift apart."""
 import re
-from .obs import parse_fields, parse_err, split_obs, parse_log
+from .obs import parse_fields, parse_err, split_obs, parse_log, parse_spec, canon
 
 _SFX = re.compile(r'#\d+$')
 
@@ -465,4 +465,182 @@ def writer_oracle(c, o, s):
         if recs != want:
             v.failures.append('written text parses back to %s, expected %s' % (recs[:3], want[:3]))
             return v
+    return v
+
+
+# ---------------------------------------------------------------- parallel (C07, C08, C15, C16)
+
+def parse_x(c):
+    t = c.split(' ')
+    o = lambda s: None if s == '-' else int(s)
+    return dict(T=int(t[1]), Q=int(t[2]), N=int(t[3]), endErr=t[4] == '1', riFail=t[5] == '1',
+                dsFail=o(t[6]), stop=o(t[7]), cont=t[8] == '1')
+
+
+def parallel_trace_oracle(c, o, which):
+    """which: set of clause groups to check: 'deliver' (C07), 'terminate' (C08), 'errors' (C15), 'bounded' (C16)."""
+    v = Verdict()
+    cfg = parse_x(c)
+    parts = o.split(' ')
+    trace = [] if parts[0] == '-' else parts[0].split(',')
+    rest = ' '.join(parts[1:])
+    hang = 'HANG' in rest
+    panic = 'PANIC' in rest
+    v.nontrivial = any(e.startswith('cr') for e in trace) or cfg['riFail'] or cfg['dsFail'] is not None
+    if 'terminate' in which:
+        if hang:
+            v.failures.append('the parallel call did not return within the watchdog time (trace so far: %s)' % parts[0][-200:])
+            return v
+        if 'leak=0' not in rest:
+            v.failures.append('threads were still alive after the call returned: %s' % rest)
+            return v
+        v.nontrivial = True
+    if hang:
+        return v
+    if panic:
+        if 'errors' in which or 'terminate' in which:
+            v.failures.append('the parallel call panicked (config %s)' % cfg)
+        return v
+    fills = {}
+    works = set()
+    crs = []
+    nfill = 0
+    ncr = 0
+    nce = 0
+    ndi = 0
+    ended = False
+    for e in trace:
+        if e.startswith('fe') or e.startswith('fn'):
+            continue
+        if e.startswith('f'):
+            d, k = e[1:].split('.')
+            fills[int(k)] = int(d)
+            nfill += 1
+            if 'bounded' in which and nfill - ncr > cfg['Q'] + 1:
+                v.failures.append('reader ran %d batches ahead of the consumer (queue length %d)' % (nfill - ncr, cfg['Q']))
+                return v
+        elif e.startswith('we'):
+            d, k = e[2:].split('.')
+            works.add((int(d), int(k)))
+        elif e.startswith('cr'):
+            d, k = e[2:].split('.')
+            d, k = int(d), int(k)
+            ncr += 1
+            if 'deliver' in which:
+                if k in [x[1] for x in crs]:
+                    v.failures.append('batch %d was delivered twice' % k)
+                    return v
+                if fills.get(k) != d or (d, k) not in works:
+                    v.failures.append('batch %d arrived in data set %d without having been filled/processed there' % (k, d))
+                    return v
+                if ended:
+                    v.failures.append('a result arrived after the end marker')
+                    return v
+            crs.append((d, k))
+        elif e == 'ce':
+            nce += 1
+        elif e == 'cn':
+            ended = True
+        elif e == 'di1' or e == 'di0':
+            ndi += 1
+    if 'deliver' in which:
+        if 'bad_out=0' not in rest:
+            v.failures.append('a record set arrived with an output that was not computed for it (%s)' % rest)
+            return v
+        if cfg['T'] == 1 and [k for _, k in crs] != sorted(k for _, k in crs):
+            v.failures.append('single worker thread, but batches arrived out of order: %s' % [k for _, k in crs])
+            return v
+        clean = not cfg['riFail'] and cfg['dsFail'] is None
+        if clean and cfg['stop'] is None and (not cfg['endErr'] or cfg['cont']):
+            if sorted(k for _, k in crs) != list(range(cfg['N'])):
+                v.failures.append('draining consumer received batches %s of %d' % (sorted(k for _, k in crs), cfg['N']))
+                return v
+    if 'errors' in which:
+        if nce > 1 or (nce == 1 and not cfg['endErr']):
+            v.failures.append('the consumer received %d errors (reader fails: %s)' % (nce, cfg['endErr']))
+            return v
+        clean = not cfg['riFail'] and cfg['dsFail'] is None
+        if clean and cfg['endErr'] and cfg['stop'] is None and nce != 1:
+            v.failures.append('the reader failed but the draining consumer saw %d errors' % nce)
+            return v
+        if clean and cfg['endErr'] and cfg['cont'] and cfg['stop'] is None and not ended:
+            v.failures.append('consumer kept draining after the error but never received the end marker')
+            return v
+        ret = [e for e in trace if e.startswith('ret')]
+        if len(ret) != 1:
+            v.failures.append('the call did not return exactly once: %s' % ret)
+            return v
+        code = int(ret[0][3:])
+        if cfg['riFail'] and code == 0:
+            v.failures.append('reader initialisation failed but the call returned Ok')
+            return v
+        if (code == 1 and cfg['dsFail'] is None) or (code == 2 and not cfg['riFail']):
+            v.failures.append('returned error code %d without such a failure' % code)
+            return v
+        if 'di0' in trace and code != 1:
+            v.failures.append('data-set initialisation failed but the call returned code %d' % code)
+            return v
+    if 'bounded' in which:
+        if ndi > cfg['Q'] + 1:
+            v.failures.append('%d data sets were created (queue length %d)' % (ndi, cfg['Q']))
+            return v
+        if nfill > cfg['Q'] + 1:
+            v.nontrivial = True
+    return v
+
+
+def parallel_real_oracle(c, o, s, which):
+    """`Y` cases: parallel_fasta / parallel_fastq on real readers against S and against sequential reading."""
+    v = Verdict()
+    t = c.split(' ')
+    fmt, T, stop = t[1], int(t[2]), (None if t[5] == '-' else int(t[5]))
+    if 'HANG' in o or 'leak=0' not in o:
+        if 'terminate' in which:
+            v.failures.append('parallel call hung or left threads behind: %s' % o[-80:])
+        return v
+    if o.startswith('PANIC'):
+        v.failures.append('parallel call panicked')
+        return v
+    items = parse_spec(fmt, canon(s))
+    head, tail = o.split(' SEQ:')
+    seq_tail = tail.split(' ')[0]
+    recs_s, par_tail = head.rsplit(' ', 1)
+    seen = [] if recs_s == '-' else [parse_fields(x) for x in recs_s.split('/')]
+    want = [it for it in items if it[0] == 'rec']
+    v.nontrivial = len(seen) > 0
+
+    def key(f):
+        return (f.get('h'), f.get('s'), f.get('q'))
+
+    def skey(it):
+        d = it[1]
+        return (d['h'], lines_join(d['l']) if fmt == 'fa' else d['s'], d.get('q'))
+
+    if 'deliver' in which:
+        if any(f.get('o') != '1' for f in seen):
+            v.failures.append('a record arrived with an output computed for another record')
+            return v
+        wk = [skey(it) for it in want]
+        sk = [key(f) for f in seen]
+        # every delivered record is a record of the input, at most as often as it occurs
+        from collections import Counter
+        cw, cs = Counter(wk), Counter(sk)
+        if any(cs[k] > cw.get(k, 0) for k in cs):
+            v.failures.append('records delivered that are not in the input or delivered twice')
+            return v
+        if stop is None and par_tail == 'END' and cw != cs:
+            v.failures.append('%d records delivered, the input has %d' % (len(sk), len(wk)))
+            return v
+        if T == 1 and sk != wk[:len(sk)]:
+            v.failures.append('single worker thread but records out of file order')
+            return v
+        if stop is not None and len(wk) >= stop and par_tail == 'STOP' and len(sk) != stop:
+            v.failures.append('consumer stopped after %d records but received %d' % (stop, len(sk)))
+            return v
+    if 'errors' in which:
+        if stop is None and par_tail != seq_tail:
+            v.failures.append('parallel reading ended with %s, sequential reading with %s' % (par_tail[:80], seq_tail[:80]))
+            return v
+        if seq_tail.startswith('E:'):
+            v.nontrivial = True
     return v
